@@ -15,8 +15,10 @@ from func_adl.util_ast import (
     lambda_body_replace,
     lambda_build,
     lambda_call,
+    lambda_call_follow_renames,
     lambda_is_identity,
     lambda_is_true,
+    lambda_parameter_names,
     lambda_unwrap,
 )
 
@@ -459,6 +461,12 @@ class simplify_chained_calls(FuncADLNodeTransformer):
                 return self.visit(func.body)
         elif _is_method_call_on_first(call_node):
             return self.select_method_call_on_first(call_node)
+        elif type(call_node.func) is ast.Lambda:
+            # A called lambda that is left as a call (keyword arguments, defaults, ...): if its
+            # parameters get renamed the keywords that bind them have to follow.
+            old_names = lambda_parameter_names(call_node.func)
+            new_call = FuncADLNodeTransformer.visit_Call(self, call_node)
+            return lambda_call_follow_renames(new_call, old_names)
         else:
             return FuncADLNodeTransformer.visit_Call(self, call_node)
 
